@@ -440,4 +440,103 @@ theorem lag_run {ap : Tid → σ → Blk → σ} {g : Tid → σ} {s s' : Sys Bl
     | none => simp [hst] at hr
     | some s1 => simp only [hst] at hr; exact ih (inv_step hi hst) (lag_step hi h hst) hr
 
+/-! ### monotonicity: acknowledgements and durable blocks are never taken back -/
+
+/-- along a step the acknowledged rounds only grow and the block DB content only grows at its end -/
+def Mono (s s' : Sys Blk) : Prop :=
+  (∀ r, r ∈ s.confirmed → r ∈ s'.confirmed) ∧ ∃ x, blocksOf s'.btx = blocksOf s.btx ++ x
+
+theorem mono_refl (s : Sys Blk) : Mono s s := ⟨fun _ h => h, [], by simp⟩
+
+theorem mono_of_eq {s s' : Sys Blk} (hc : s'.confirmed = s.confirmed) (hb : s'.btx = s.btx) : Mono s s' :=
+  ⟨fun _ h => by rw [hc]; exact h, [], by rw [hb]; simp⟩
+
+theorem mono_trans {a b c : Sys Blk} (h1 : Mono a b) (h2 : Mono b c) : Mono a c := by
+  obtain ⟨c1, x, hx⟩ := h1
+  obtain ⟨c2, y, hy⟩ := h2
+  exact ⟨fun r h => c2 r (c1 r h), x ++ y, by rw [hy, hx, List.append_assoc]⟩
+
+theorem mono_step {s s' : Sys Blk} {e : Ev Blk} (hs : step s e = some s') : Mono s s' := by
+  cases e with
+  | put b => simp only [step, Option.some.injEq] at hs; subst hs; exact mono_of_eq rfl rfl
+  | flushBegin k =>
+    simp only [step] at hs
+    split at hs
+    · simp only [Option.some.injEq] at hs; subst hs; exact mono_of_eq rfl rfl
+    · simp at hs
+  | flushCommit =>
+    simp only [step] at hs
+    cases hw : s.work with
+    | none => simp [hw] at hs
+    | some k =>
+      simp only [hw] at hs
+      split at hs
+      · simp only [Option.some.injEq] at hs; subst hs
+        exact ⟨fun _ h => h, s.q.take k, by
+          show blocksOf (s.btx ++ [⟨s.lastCommitted + 1, s.q.take k⟩]) = _
+          rw [blocksOf_append, blocksOf_single]⟩
+      · simp at hs
+  | flushAbort =>
+    simp only [step] at hs
+    cases hw : s.work with
+    | none => simp [hw] at hs
+    | some k => simp only [hw, Option.some.injEq] at hs; subst hs; exact mono_of_eq rfl rfl
+  | notifyCommit n =>
+    cases n with
+    | none => simp only [step, Option.some.injEq] at hs; subst hs; exact mono_refl _
+    | some n =>
+      simp only [step] at hs
+      split at hs
+      · simp only [Option.some.injEq] at hs; subst hs; exact mono_of_eq rfl rfl
+      · simp at hs
+  | commitBegin =>
+    simp only [step] at hs
+    cases hp : s.pending with
+    | none => simp [hp] at hs
+    | some n =>
+      cases hph : s.phase with
+      | prepared t => simp [hp, hph] at hs
+      | committed m => simp [hp, hph] at hs
+      | idle =>
+        simp only [hp, hph] at hs
+        split at hs
+        · simp only [Option.some.injEq] at hs; subst hs; exact mono_of_eq rfl rfl
+        · simp only [Option.some.injEq] at hs; subst hs; exact mono_of_eq rfl rfl
+  | commitTxn =>
+    simp only [step] at hs
+    cases hph : s.phase with
+    | idle => simp [hph] at hs
+    | committed m => simp [hph] at hs
+    | prepared t => simp only [hph, Option.some.injEq] at hs; subst hs; exact mono_of_eq rfl rfl
+  | commitAbort =>
+    simp only [step] at hs
+    cases hph : s.phase with
+    | idle => simp [hph] at hs
+    | committed m => simp [hph] at hs
+    | prepared t => simp only [hph, Option.some.injEq] at hs; subst hs; exact mono_of_eq rfl rfl
+  | commitPost =>
+    simp only [step] at hs
+    cases hph : s.phase with
+    | idle => simp [hph] at hs
+    | prepared t => simp [hph] at hs
+    | committed m => simp only [hph, Option.some.injEq] at hs; subst hs; exact mono_of_eq rfl rfl
+  | waitCommit r =>
+    simp only [step] at hs
+    split at hs
+    · simp only [Option.some.injEq] at hs; subst hs
+      exact ⟨fun r' h => List.mem_cons_of_mem _ h, [], by simp⟩
+    · simp at hs
+  | crash =>
+    simp only [step, Option.some.injEq] at hs; subst hs
+    exact mono_of_eq rfl rfl
+
+theorem mono_run {s s' : Sys Blk} {es : List (Ev Blk)} (hr : run s es = some s') : Mono s s' := by
+  induction es generalizing s with
+  | nil => simp only [run, Option.some.injEq] at hr; subst hr; exact mono_refl _
+  | cons e es ih =>
+    simp only [run] at hr
+    cases hst : step s e with
+    | none => simp [hst] at hr
+    | some s1 => simp only [hst] at hr; exact mono_trans (mono_step hst) (ih hr)
+
 end AlgoVerif.Lemmas.Durable
